@@ -75,6 +75,17 @@ def mon_C01(run):
 def mon_C02(run):
     if run.consf is None:
         return
+    exp = run.job.get("expect")
+    if exp == "reject":
+        if not isinstance(run.exc, ValueError) or run.result is not None:
+            run.v("C02", "infeasible starting point was not rejected with ValueError", "start-not-rejected/%s" % run.job.get("cell", ""),
+                  (type(run.exc).__name__ if run.exc is not None else "returned", len(run.calls)))
+        if run.calls:
+            run.v("C02", "target was called although the starting point is infeasible", "start-called/%s" % run.job.get("cell", ""), len(run.calls))
+        return
+    if exp == "accept" and run.bads is None:
+        run.v("C02", "feasible starting point was rejected", "start-rejected/%s" % run.job.get("cell", ""), repr(run.exc)[:200])
+        return
     for c in run.calls:
         if bool(run.consf(c["x"].reshape(1, -1))[0]):
             run.v("C02", "target evaluated at an infeasible point", "infeasible-call/%s" % c["phase"], (c["k"], c["x"].tolist()))
